@@ -41,8 +41,9 @@ let () =
   match mode with
   | "run" ->
     let fx = fixes_of (if Array.length Sys.argv > 2 then Sys.argv.(2) else "all") in
-    let ic = if Array.length Sys.argv > 3 then open_in Sys.argv.(3) else stdin in
-    let st = ref (init_rstate fx) in
+    let ic = if Array.length Sys.argv > 3 && Sys.argv.(3) <> "-" then open_in Sys.argv.(3) else stdin in
+    let follow = not (Array.length Sys.argv > 4 && Sys.argv.(4) = "nofollow") in
+    let st = ref (init_rstate fx follow) in
     (try
        while true do
          let line = input_line ic in
@@ -61,4 +62,4 @@ let () =
          end
        done
      with End_of_file -> ())
-  | _ -> prerr_endline "usage: atsmodel run [all|none|bits] [file] | atsmodel dec"; exit 2
+  | _ -> prerr_endline "usage: atsmodel run [all|none|bits] [file|-] [nofollow] | atsmodel dec"; exit 2
